@@ -8,11 +8,11 @@
     [entry_xxx : str -> table -> option table] here. *)
 
 From Coq Require Import List Ascii String ZArith Bool.
-From Shexer Require Import Lib.PyStr Model.Table Model.EntryC20.
+From Shexer Require Import Lib.PyStr Model.Table Model.EntryC20 Model.EntryC06.
 Import ListNotations.
 
 Definition entries : list (str -> table -> option table) :=
-  [entry_c20].
+  [entry_c20; entry_c06].
 
 Fixpoint dispatch (l : list (str -> table -> option table)) (name : str) (t : table) : table :=
   match l with
